@@ -75,11 +75,12 @@ def load_property(pid):
 def differential(ctx, lines, label=""):
     """run lines through harness and driver; return (bad list, impl outputs, model outputs)"""
     if not lines: return [], [], []
-    rc, impl, err = vlib.run_stream(ctx.harness, lines, env=ctx.mod_env)
+    rc, impl, err = vlib.run_stream(ctx.harness, lines, env=ctx.mod_env, timeout=900 if getattr(ctx, "tier", "quick") == "quick" else 3600)
     if rc != 0 or len(impl) != len(lines):
         # harness died: find the line (sanitizer abort / crash) — the op after the last answered one
         k = len(impl)
-        bad = [(k, lines[k] if k < len(lines) else "<eof>", "<crash rc=%d> %s" % (rc, err.strip().split("\n")[0][:300] if err.strip() else ""), "<no crash>")]
+        what = "<hang> the call did not return" if rc == vlib.HANG_RC else "<crash rc=%d> %s" % (rc, err.strip().split("\n")[0][:300] if err.strip() else "")
+        bad = [(k, lines[k] if k < len(lines) else "<eof>", what, "<no crash>")]
         ctx.crash_stderr = err[-6000:]
         return bad, impl, []
     dl = [a + " => " + b for a, b in zip(lines, impl)]
@@ -220,7 +221,8 @@ def main():
             if pos <= idx < pos + len(s): seg = s; break
             pos += len(s)
         seg = seg or [bad[0][1]]
-        seg = shrink_segment(ctx, seg)
+        if bad[0][2].startswith("<hang>"): seg = seg[: idx - pos + 1] if len(seg) > 1 else seg       # every re-run of a hanging history costs a full timeout: cut after the hanging line only
+        else: seg = shrink_segment(ctx, seg)
         n = len(__import__("glob").glob(os.path.join(vlib.VERIF, "replay", pid + "-*.ops"))) + 1
         path = os.path.join(vlib.VERIF, "replay", "%s-%d.ops" % (pid, n))
         os.makedirs(os.path.dirname(path), exist_ok=True)
